@@ -48,6 +48,9 @@ func relativise(nodes []core_domain.CodeDataStruct, dir string) []core_domain.Co
 	out := make([]core_domain.CodeDataStruct, len(nodes))
 	for i, n := range nodes {
 		n.FilePath = strings.TrimPrefix(strings.TrimPrefix(n.FilePath, dir), "/")
+		if len(n.InnerStructures) > 0 {
+			n.InnerStructures = relativise(n.InnerStructures, dir) // nested types carry the path of their file too
+		}
 		out[i] = n
 	}
 	return out
